@@ -367,7 +367,7 @@ def plan_C04(tier, rng):
         ty = rng.choice(list(gens.INT_TYPES))
         cs.parse(ep, ty, 0, data, [rng.choice(cfgs)], std=True, tag="random-bytes")
         cs.parse(ep, ty, 0, data, [rng.choice(cfgs)], partial=True)
-    models = [("MC_BigNat.tla", "MC_BigNat.cfg", 4, 600), ("MC_IntParse.tla", "MC_IntParse.cfg", 8, 900)]
+    models = [("MC_BigNat.tla", "MC_BigNat.cfg", 4, 600), ("MC_IntParse.tla", "MC_IntParse.cfg" if quick else "MC_IntParse_thorough.cfg", 8, 1800)]
     return cs, models, {"input_families": cs.tags, "configurations": cfgs}
 
 
@@ -511,7 +511,7 @@ def plan_C10(tier, rng):
                 o = opts_for_fmt(f) if isf else {"nmd": False}
                 cs.parse(ep, ty, f["id"], data, ["rf"], wo=True, opts=o, place=place, tag="flagged-format")
                 cs.parse(ep, ty, f["id"], data, ["rf"], wo=True, opts=o, partial=True, place=place)
-    models = [("MC_IntParse.tla", "MC_IntParse.cfg", 8, 900)]
+    models = [("MC_IntParse.tla", "MC_IntParse.cfg" if quick else "MC_IntParse_thorough.cfg", 8, 1800)]
     return cs, models, {"input_families": cs.tags, "configurations": cfgs, "profiles": ["release", "dbg"]}
 
 
@@ -573,7 +573,7 @@ def plan_C11(tier, rng):
             if e.get("want_prefix") and e["res"].get("k") == "ok" and 0 < e["res"]["n"] < e["len"]:
                 cs2.parse(e["ep"], e["ty"], e["fmt"], e["in"][:e["res"]["n"]], [e["_cfgname"]], wo=e["wo"], opts=e["opts"],
                           tag="prefix")
-    models = [("MC_IntParse.tla", "MC_IntParse.cfg", 8, 900), wmodel]
+    models = [("MC_IntParse.tla", "MC_IntParse.cfg" if quick else "MC_IntParse_thorough.cfg", 8, 1800), wmodel]
     return cs, models, {"input_families": cs.tags, "configurations": cfgs, "phase2": phase2}
 
 
@@ -1499,7 +1499,7 @@ def plan_C18(tier, rng):
             o2 = {"max": mx, "min": mn, "pos": ps, "neg": ng, "round": "truncate" if mx % 2 else "round", "trim": mn % 2 == 1,
                   "exp": 101, "point": 46, "nan": ostr(nan), "inf": ostr("inf")}
             cs.add({"ep": ep, "op": "options", "kind": "write_float", "opts": o2, "api": "core", "wo": True}, RF, "write-float-options")
-    models = [("MC_Builder.tla", "MC_Builder.cfg", 8, 900)]
+    models = [("MC_Builder.tla", "MC_Builder.cfg" if quick else "MC_Builder_thorough.cfg", 8, 1800)]
     return cs, models, {"input_families": cs.tags, "configurations": ["rf", "pow2", "format", "default"]}
 
 
